@@ -67,9 +67,16 @@ Recalc(pts, rM, Zb) ==
      ELSE [pts[i] EXCEPT !.R = Char(pts[i - 1].z, pts[i].z, pts[i].d, rM, Zb)]]
 
 (* index of the interval containing x strictly inside, 0 if x is outside (0,1) or equals a point *)
+(* (pts is ordered by x: binary search - a linear scan costs thousands of comparisons per trial in long traces)   *)
+RECURSIVE LocBin(_, _, _, _)
+LocBin(pts, x, lo, hi) ==     \* least i in lo..hi with x <= pts[i].x, given pts[lo - 1].x < x <= pts[hi].x
+  IF lo >= hi THEN hi
+  ELSE IF QLt(pts[(lo + hi) \div 2].x, x) THEN LocBin(pts, x, ((lo + hi) \div 2) + 1, hi)
+       ELSE LocBin(pts, x, lo, (lo + hi) \div 2)
 Locate(pts, x) ==
-  LET S == {i \in 2..Len(pts) : QLt(pts[i - 1].x, x) /\ QLt(x, pts[i].x)}
-  IN IF S = {} THEN 0 ELSE CHOOSE i \in S : TRUE
+  IF Len(pts) < 2 THEN 0
+  ELSE IF ~(QLt(pts[1].x, x) /\ QLt(x, pts[Len(pts)].x)) THEN 0
+  ELSE LET i == LocBin(pts, x, 2, Len(pts)) IN IF QLt(x, pts[i].x) THEN i ELSE 0
 
 (* insert a new evaluated point into interval t; returns the new sequence with the lengths of the *)
 (* two new intervals set (RenewSearchData, first two lines) and R of both marked to be computed   *)
